@@ -7,7 +7,9 @@
 
    Store: core (frames, arrays, trace, failure counter: RefSem's store), thunks (cell table),
    touched (ghost log of the cells force/substitute were applied to).
-     touch c s      = s with c logged;   memo_set c v s = s with the memo of cell c set to v
+     touch c s      = s with c logged;   add_cell s t = s with the new cell t appended
+     started c s    = touch c s with c marked (ghost) as being evaluated
+     finished c v s = s with the memo of cell c set to v and c no longer being evaluated
      rel c s s'     = s and s' agree on everything except the SOURCE of cell c
      clean c s      = c is not in the log of s
      kept s s'      = no cell removed, no source changed, no memo cleared, log only extended
@@ -34,8 +36,7 @@ Open Scope Z_scope.
 
 Theorem lazy_position_only_allocates : forall ev env e s,
   prep_arg ev env true e s =
-  (Done (VThunk (length (thunks s))),
-   mkStore (core s) (thunks s ++ [mkThunk (TSrc e env) None]) (touched s)).
+  (Done (VThunk (length (thunks s))), add_cell s (mkThunk (TSrc e env) None)).
 Proof. exact RefSemLazyProofs.lazy_position_only_allocates. Qed.
 Print Assumptions lazy_position_only_allocates.
 
@@ -107,15 +108,50 @@ Theorem force_at_most_once_reentrant_refuted :
 Proof. exists reentrant_prog, 40%nat. exact RefSemLazyProofs.reentrant_force_evaluates_twice. Qed.
 Print Assumptions force_at_most_once_reentrant_refuted.
 
+(* the unrestricted statement holds exactly up to the finding: ghost bookkeeping (gh: forcing =
+   cells being evaluated, evals = one entry per started evaluation of a cell's source, reent = an
+   evaluation of a cell was started while that cell was being evaluated).  In every run that is
+   not re-entrant, the source of EVERY cell is evaluated at most once, however often and whenever
+   it is forced, whether evaluations succeed or fail *)
+Theorem force_at_most_once_unrestricted : forall n env e s r s1,
+  eval n env e s = (r, s1) -> ginv s -> no_reentrant_force s1 ->
+  forall c, (count_occ Nat.eq_dec (evals (gh s1)) c <= 1)%nat.
+Proof. exact RefSemLazyProofs.force_at_most_once_unrestricted. Qed.
+Print Assumptions force_at_most_once_unrestricted.
+
+Theorem program_evaluates_each_argument_at_most_once : forall n failat forms r s1,
+  ev_begin (eval n) [O] forms (init_store failat) = (r, s1) ->
+  no_reentrant_force s1 ->
+  forall c, (count_occ Nat.eq_dec (evals (gh s1)) c <= 1)%nat.
+Proof. exact RefSemLazyProofs.program_evaluates_each_argument_at_most_once. Qed.
+Print Assumptions program_evaluates_each_argument_at_most_once.
+
+(* the flag is set at one place only, by exactly the re-entrant start *)
+Theorem reentrant_flag_set_iff : forall c s,
+  memo_of s c = None ->
+  reent (gh (snd (begin_force c s))) = (reent (gh s) || existsb (Nat.eqb c) (forcing (gh s))).
+Proof. exact RefSemLazyProofs.reentrant_flag_set_iff. Qed.
+Print Assumptions reentrant_flag_set_iff.
+
+(* and the side condition is necessary: the witness of the finding starts cell 0 twice, flagged *)
+Example reentrant_witness_is_flagged : final_ghost 40 reentrant_prog = mkGhost [] [O; O] true.
+Proof. exact RefSemLazyProofs.reentrant_prog_ghost. Qed.
+
 (* ---- 3. force evaluates in the environment captured at the call ---- *)
 
 Theorem force_in_caller_env : forall n c s e env r s1,
   nth_error (thunks s) c = Some (mkThunk (TSrc e env) None) -> cc [] e = true ->
-  eval n env e (touch c s) = (r, s1) ->
+  eval n env e (started c s) = (r, s1) ->
   apply (S n) (VPrim PForce) [VThunk c] s =
-  match r with Done v => (Done v, memo_set c v s1) | _ => (r, s1) end.
+  match r with Done v => (Done v, finished c v s1) | _ => (r, s1) end.
 Proof. exact RefSemLazyProofs.force_in_caller_env. Qed.
 Print Assumptions force_in_caller_env.
+
+(* started c s differs from s only in the ghost and the log *)
+Theorem force_starts_in_the_store_at_force_time : forall c s,
+  core (started c s) = core s /\ thunks (started c s) = thunks s /\ touched (started c s) = c :: touched s.
+Proof. exact RefSemLazyProofs.started_same. Qed.
+Print Assumptions force_starts_in_the_store_at_force_time.
 
 Theorem force_uncompilable : forall n c s e env,
   nth_error (thunks s) c = Some (mkThunk (TSrc e env) None) -> cc [] e = false ->
@@ -175,6 +211,57 @@ Theorem lazy_position_value : forall ev env flags es s vs s',
 Proof. exact RefSemLazyProofs.lazy_position_value. Qed.
 Print Assumptions lazy_position_value.
 
+(* the call expression, any argument position, any way of naming the callee: the argument standing
+   in a lazy position whose cell is never forced / substituted is irrelevant *)
+Theorem call_lazy_arg_irrelevant : forall n env f args1 a a' args2 s fv s1 vs1 sa r s3,
+  (match f with EVar _ => true | _ => cc [] f end) = true ->
+  eval n env f s = (Done fv, s1) ->
+  nth (length args1) (lazy_flags fv) false = true ->
+  prep_args (eval n) env (lazy_flags fv) args1 s1 = (Done vs1, sa) ->
+  eval (S n) env (ECall f (args1 ++ a :: args2)) s = (r, s3) ->
+  clean (length (thunks sa)) s3 ->
+  exists s3', eval (S n) env (ECall f (args1 ++ a' :: args2)) s = (r, s3') /\
+              rel (length (thunks sa)) s3 s3'.
+Proof. exact RefSemLazyProofs.call_lazy_arg_irrelevant. Qed.
+Print Assumptions call_lazy_arg_irrelevant.
+
+(* ... and the effects of every strict argument occur exactly once, in order, after the callee's
+   and before the body's: the trace of the call is  body ++ segments(last..first) ++ callee ++ before,
+   one segment per position: the extension made by the single evaluation of that argument (strict)
+   or nothing (lazy) *)
+Theorem call_strict_args_exactly_once_before_body : forall n env f args s fv s1 vs s2 r s3,
+  (match f with EVar _ => true | _ => cc [] f end) = true ->
+  eval n env f s = (Done fv, s1) -> is_fn fv = true ->
+  run_prep (eval n) env (lazy_flags fv) args s1 vs s2 ->
+  apply n fv vs s2 = (r, s3) ->
+  eval (S n) env (ECall f args) s = (r, s3) /\
+  exists tc segs tb,
+    length segs = length args /\
+    trace (core s1) = tc ++ trace (core s) /\
+    trace (core s3) = tb ++ concat (rev segs) ++ tc ++ trace (core s) /\
+    forall i e, nth_error args i = Some e ->
+      (nth i (lazy_flags fv) false = true -> nth i segs [] = []) /\
+      (nth i (lazy_flags fv) false = false ->
+         exists si v si', eval n env e si = (Done v, si') /\ nth_error vs i = Some v /\
+                          trace (core si') = nth i segs [] ++ trace (core si)).
+Proof. exact RefSemLazyProofs.call_strict_args_exactly_once_before_body. Qed.
+Print Assumptions call_strict_args_exactly_once_before_body.
+
+(* apply / map routes: the route evaluates nothing between the arrival of the values and the body;
+   the values themselves (elements of an array literal) are evaluated once each, left to right *)
+Theorem apply_map_route_sequence : forall ap f vs s ws s1 r s2,
+  wrap_args (lazy_flags f) vs s = (Done ws, s1) ->
+  ap f ws s1 = (r, s2) ->
+  ap_values ap f vs s = (r, s2) /\ core s1 = core s /\ touched s1 = touched s /\
+  (forall i, nth i (lazy_flags f) false = false -> nth_error ws i = nth_error vs i).
+Proof. exact RefSemLazyProofs.apply_map_route_sequence. Qed.
+Print Assumptions apply_map_route_sequence.
+
+Theorem ev_list_iff_run_list : forall ev env es s vs s',
+  ev_list ev env es s = (Done vs, s') <-> run_list ev env es s vs s'.
+Proof. exact RefSemLazyProofs.ev_list_iff_run_list. Qed.
+Print Assumptions ev_list_iff_run_list.
+
 (* apply / map (environment.go:Apply): nothing is evaluated; a strict position keeps the value
    it was given, a lazy one gets a fresh, already forced cell *)
 Theorem apply_route_positions : forall vs flags s ws s',
@@ -188,8 +275,7 @@ Print Assumptions apply_route_positions.
 
 Theorem apply_route_cell_is_forced : forall v s,
   wrap_arg true v s =
-  (Done (VThunk (length (thunks s))),
-   mkStore (core s) (thunks s ++ [mkThunk (TVal v) (Some v)]) (touched s)).
+  (Done (VThunk (length (thunks s))), add_cell s (mkThunk (TVal v) (Some v))).
 Proof. exact RefSemLazyProofs.wrap_arg_forced. Qed.
 Print Assumptions apply_route_cell_is_forced.
 
